@@ -33,7 +33,8 @@ C18(pre, e, post, line) ==
     /\ (Ok(e) /\ CurveValid(ir)) =>
          LET rs0 == e.out.rates
              \* the legacy curve is not clamped above 100% utilization: it is judged on [0, 1] only (DESIGN.md section 6)
-             keep == {i \in DOMAIN rs0 : ir.curve_type = 1 \/ (BLe(rs0[i].ur, FOne) /\ ~BIsNeg(rs0[i].ur))}
+             \* utilization is a ratio of non-negative amounts: negative inputs are outside the property
+             keep == {i \in DOMAIN rs0 : ~BIsNeg(rs0[i].ur) /\ (ir.curve_type = 1 \/ BLe(rs0[i].ur, FOne))}
              rs == [i \in keep |-> rs0[i]]
              lo == IF ir.curve_type = 1 THEN RRate(ir.zero) ELSE RZero
              hi == IF ir.curve_type = 1 THEN RRate(ir.hundred) ELSE R(ir.max_rate)
